@@ -118,6 +118,40 @@ Fixpoint count_nat (x : nat) (l : list nat) : nat :=
 Definition positions (len : nat) (cs : list N) : list nat :=
   map (fun c => N.to_nat (N.modulo c (N.of_nat len))) cs.
 
+(* ---------------------------------------------------------------- rr lookups concurrent with table replacement *)
+(* route.SetTable(t) is ONE atomic publication (table.Store(t), an atomic.Value); a table is immutable
+   afterwards except for the cursors of its own routes, which only lookups advance (fetch-and-add); a
+   fresh table's cursors are 0.  A lookup is two actions: route.GetTable() (one atomic load of the
+   current table) and the pick on the route of THAT table.  One (host, path) route is followed through
+   the generations of the table: shared state = the current generation and one cursor per generation. *)
+Record tb_shared := { tb_cur : nat; tb_cursors : list N }.
+Inductive tb_pc := TLoad | TPick | TSet | TStop.
+Record tb_local := { tb_at : tb_pc; tb_todo : nat; tb_reg : nat; tb_seen : list (nat * N) }.
+(* a goroutine doing [k] lookups / a writer installing [k] tables *)
+Definition tb_reader (k : nat) : tb_local :=
+  {| tb_at := match k with O => TStop | _ => TLoad end; tb_todo := k; tb_reg := O; tb_seen := [] |}.
+Definition tb_writer (k : nat) : tb_local :=
+  {| tb_at := match k with O => TStop | _ => TSet end; tb_todo := k; tb_reg := O; tb_seen := [] |}.
+Definition cur_of (s : tb_shared) (g : nat) : N := nth g (tb_cursors s) 0%N.
+
+Definition tb_step (s : tb_shared) (l : tb_local) : tb_shared * tb_local :=
+  match tb_at l with
+  | TLoad => (s, {| tb_at := TPick; tb_todo := tb_todo l; tb_reg := tb_cur s; tb_seen := tb_seen l |})
+  | TPick => let c := cur_of s (tb_reg l) in
+             ({| tb_cur := tb_cur s; tb_cursors := upd (tb_cursors s) (tb_reg l) (N.modulo (c + 1) two64) |},
+              {| tb_at := match tb_todo l with S (S _) => TLoad | _ => TStop end; tb_todo := pred (tb_todo l);
+                 tb_reg := tb_reg l; tb_seen := tb_seen l ++ [(tb_reg l, c)] |})
+  | TSet => ({| tb_cur := length (tb_cursors s); tb_cursors := tb_cursors s ++ [0%N] |},       (* ASetTable *)
+             {| tb_at := match tb_todo l with S (S _) => TSet | _ => TStop end; tb_todo := pred (tb_todo l);
+                tb_reg := tb_reg l; tb_seen := tb_seen l |})
+  | TStop => (s, l)
+  end.
+
+(* the cursor values of the picks served by generation [g], over all goroutines *)
+Definition seen_of (g : nat) (l : tb_local) : list N :=
+  map snd (filter (fun p => Nat.eqb (fst p) g) (tb_seen l)).
+Definition seen_gen (g : nat) (ts : list tb_local) : list N := concat (map (seen_of g) ts).
+
 (* ---------------------------------------------------------------- rndPicker (the default strategy) *)
 (* func rndPicker(r *Route) *Target { return r.wTargets[randIntn(len(r.wTargets))] }
    randIntn(n) is 0 for n == 0 and math/rand.Intn(n) otherwise: the package-level generator, which is
